@@ -67,7 +67,7 @@ def dict_key_sites(fn: Func, dname: str) -> List[Tuple[ast.AST, ast.AST]]:
     return out
 
 
-LATER_RULES = " Later rules: (R18.7) module is absolute only at level 0; (R18.8) __import__('a.b') returns a; (R18.9) import a.b is used whenever a is; (R18.10) = C05 R5.5 for the tracing module; (R18.11) duplicates = same module, name and statement list; (R18.12) imports under try are never moved; (R18.15) a star import is removed as unused only when its export list can be determined, by a predicate that gives up wherever trace_origin does; (R18.16) import statements are reordered only after a test on the names they bind (known finding); (R18.17) imports inserted at module level replace module-level imports only. (R18.18) one key form for all tests against the standard-library table in a function. (R18.19) trace_origin answers an origin only after a census of the module-level stores of the name (binder kinds it does not read)."
+LATER_RULES = " Later rules: (R18.7) module is absolute only at level 0; (R18.8) __import__('a.b') returns a; (R18.9) import a.b is used whenever a is; (R18.10) = C05 R5.5 for the tracing module; (R18.11) duplicates = same module, name and statement list; (R18.12) imports under try are never moved; (R18.15) a star import is removed as unused only when its export list can be determined, by a predicate that gives up wherever trace_origin does; (R18.16) import statements are reordered only after a test on the names they bind (known finding); (R18.17) imports inserted at module level replace module-level imports only. (R18.18) one key form for all tests against the standard-library table in a function. (R18.20) the definitions subtracted from the names a star import may provide are those of module scope (known finding). (R18.19) trace_origin answers an origin only after a census of the module-level stores of the name (binder kinds it does not read)."
 
 
 def check(prog: Program, tier: str) -> Result:
@@ -182,7 +182,8 @@ def check(prog: Program, tier: str) -> Result:
     _r18_18(prog, res)
     _r18_13_census(prog, res)
     _r18_19(prog, res)
-    res.floors.update({"R18.1": 6, "R18.2": 2, "R18.4": 1, "R18.5": 1, "R18.10": 3, "R18.11": 2, "R18.12": 1, "R18.13": 4, "R18.14": 2, "R18.15": 4, "R18.16": 1, "R18.17": 2, "R18.18": 1, "R18.19": 1})
+    _r18_20(prog, res)
+    res.floors.update({"R18.1": 6, "R18.2": 2, "R18.4": 1, "R18.5": 1, "R18.10": 3, "R18.11": 2, "R18.12": 1, "R18.13": 4, "R18.14": 2, "R18.15": 4, "R18.16": 1, "R18.17": 2, "R18.18": 1, "R18.19": 1, "R18.20": 1})
     res.analysed["importfrom_constructions"] = n
     return res
 
@@ -708,6 +709,51 @@ def _r18_19(prog: Program, res: Result) -> None:
                "given only when every module-level store of the name is in a statement kind that is read" if bad is None else
                "an origin is answered from the kinds of binding that are read (" + ", ".join(sorted(TRACE_READ_KINDS)) + ") without asking whether the name is bound in another way "
                "afterwards: `from core import x` followed by `x += 1` (or `for x in ..`) is traced to core, and a client's `from mid import x` is redirected to `from core import x`")
+
+
+# ------------------------------------------------------------------------------------------------ R18.20
+def _r18_20(prog: Program, res: Result) -> None:
+    """Which names must a star import provide?  Those that are used and not bound by the module ITSELF AT THE PLACE OF USE.  The rule that
+    narrows star imports takes "referenced minus defined", and the census of definitions it subtracts counts every binding of the
+    whole tree - parameters and locals of functions, class attributes.  A star-provided name that is used at module level and
+    happens to be a local somewhere else is taken for defined, the import is narrowed without it, the use is a NameError.
+    Instance: the producer of the subtracted definitions; obligation: it does not count parameters (ast.arg) - the one kind that is
+    never a module-level binding - i.e. it is a census of module scope, not of the tree."""
+    fs = prog.funcs.get(("tracing", "fix_starred_imports"))
+    if fs is None:
+        raise AnalysisError("anchor tracing.fix_starred_imports not found")
+    # wanted names: iterated by the loop that calls trace_origin; follow to the repository function that subtracts definitions
+    producers = []
+    todo = [fs]
+    seen = set()
+    while todo:
+        g = todo.pop()
+        if g.key in seen:
+            continue
+        seen.add(g.key)
+        for c in prog.calls_in(g):
+            r = prog.resolve_call(c.func, g.mod, g)
+            if r and r[0] == "fn" and r[1].mod.name == "tracing" and ("undefined" in norm(r[1].node.returns or ast.Constant(value="")) or any(
+                    isinstance(b, ast.BinOp) and isinstance(b.op, ast.Sub) for rt in walk_own(r[1].node) if isinstance(rt, ast.Return) and rt.value is not None for b in ast.walk(rt.value))):
+                producers.append(r[1])
+    n = 0
+    for p_ in {f.key: f for f in producers}.values():
+        # the subtrahends of its returned difference that are repository calls
+        for rt in [x for x in walk_own(p_.node) if isinstance(x, ast.Return) and x.value is not None]:
+            names = [x.id for x in ast.walk(rt.value) if isinstance(x, ast.Name)]
+            for nm in names:
+                for _s, v in bindings(p_).get(nm, []):
+                    if isinstance(v, ast.Call):
+                        r = prog.resolve_call(v.func, p_.mod, p_)
+                        if r and r[0] == "fn" and "ast.Store" in norm(r[1].node):
+                            n += 1
+                            whole_tree = "ast.arg" in norm(r[1].node)
+                            res.decide(not whole_tree, "R18.20", r[1].loc(), r[1].fq, f"{r[1].node.name}() # the definitions subtracted from the names a star import may provide",
+                                       "a census of module scope" if not whole_tree else
+                                       "counts every binding of the whole tree, parameters (ast.arg) and function locals included: a name the star import provides that is used at "
+                                       "module level and is also a local of some function is dropped from the narrowed import")
+    if n == 0:
+        res.undecided("R18.20", fs.loc(), fs.fq, "names a star import may provide", "producer of the subtracted definitions not found")
 
 
 # ------------------------------------------------------------------------------------------------ R18.18
